@@ -274,6 +274,32 @@ def _outside_chunk(params, lo, hi):
     return r
 
 
+P7 = [(0, 1), (1, 2), (2, 0), (2, 3), (3, 4), (4, 5), (5, 3), (5, 6), (6, 0), (4, 1), (1, 5), (6, 6), (3, 1)]
+ORD7 = [(0, 1, 2, 3, 4, 5, 6), (6, 5, 4, 3, 2, 1, 0), (3, 0, 5, 1, 6, 2, 4)]
+
+
+def _p7_chunk(params, lo, hi):
+    """7 nodes, every subset of the 13 declared arcs P7 (two 3-cycles, arcs nesting and joining them, a self loop) x 3 node
+    orders x asc/desc neighbour order: components that are entered through non-root members, closed late, and nested -
+    shapes that need more than 5 nodes. index = (subset*3 + order)*2 + desc"""
+    r = new_result()
+    for idx in range(lo, hi):
+        desc = idx % 2
+        k = idx // 2
+        order = ORD7[k % 3]
+        code = k // 3
+        adj = [[] for _ in range(7)]
+        for b, (u, v) in enumerate(P7):
+            if code >> b & 1:
+                adj[u].append(v)
+        adj = [sorted(a, reverse=bool(desc)) for a in adj]
+        run_graph(r, 7, adj, order, True, edges_variants=(k % 3 == 0))
+        if len(r["violations"]) >= 40 or too_many_hangs():
+            r["capped"] = True
+            break
+    return r
+
+
 def _n5_block(params, lo, hi):
     off = params
     return _all_chunk((5, False, "two"), off + lo, off + hi)
@@ -287,6 +313,7 @@ def jobs(tier, seed):
         js.append(Job(f"n{n}_all_digraphs_all_orders", 2 ** (n * n) * math.factorial(n) * 2, _all_chunk, (n, True, "all"), describe="every digraph with self loops x every node iteration order x asc/desc neighbour order"))
     js.append(Job("n3_duplicate_neighbours", 40**3, _dup_chunk, None, describe="neighbour lists as arbitrary sequences (duplicates) of length <=3"))
     js.append(Job("outside_neighbours_u4", 2**16 * len(DECL), _outside_chunk, None, describe="4-node universe, declared node lists " + str(DECL)))
+    js.append(Job("n7_subsets_of_declared_arcs", 2 ** len(P7) * 3 * 2, _p7_chunk, None, describe=f"7 nodes, every subset of {P7}, 3 node orders x 2 neighbour orders"))
     total5 = 2**20 * 4
     if tier == "thorough":
         js.append(Job("n5_no_selfloops_2orders", total5, _all_chunk, (5, False, "two"), describe="all digraphs on 5 nodes without self loops, 2 node orders x 2 neighbour orders"))
